@@ -211,7 +211,7 @@ Fixpoint dropN {A} (l : list A) (n : N) : option (list A) :=
        | _ :: r => dropN r (N.pred n)
        end.
 
-Fixpoint take_exact {A} (l : list A) (n : nat) : option (list A) :=
+Fixpoint take_exact {A} (l : list A) (n : nat) {struct n} : option (list A) :=
   match n with
   | O => Some []
   | S n' => match l with
@@ -320,3 +320,30 @@ Definition idx_ok (idx : list N) : Prop := Forall (fun i => i < int32_max) idx.
 
 Definition elts_fit (e : encoder) (idx : list N) : Prop :=
   N.of_nat (enc_size e) * N.of_nat (length idx) <= int32_max.
+
+(* ---------- the specification: a built array is a sparse map ---------- *)
+
+(* typed array: listed positions give (element, true) through the typed accessor and the
+   element's bytes through GetBytes; other positions within the span give (0, false) and
+   (nil, false); beyond the span both accessors panic (index out of range) *)
+Definition sparse_map_typed (k : ikind) (b : base) (idx : list N) (zs : list Z) : Prop :=
+  span (arr b) = 64 * span_words idx /\
+  (forall j, (j < length idx)%nat ->
+     nth j idx 0 < span (arr b) /\
+     typed_get k (arr b) (nth j idx 0) = Val (nth j zs 0%Z, true) /\
+     get_bytes (arr b) (nth j idx 0) (k_bytes k) = Val (Some (encode_int k (nth j zs 0%Z)))) /\
+  (forall i, i < span (arr b) -> ~ In i idx ->
+     typed_get k (arr b) i = Val (0%Z, false) /\ get_bytes (arr b) i (k_bytes k) = Val None) /\
+  (forall i, span (arr b) <= i ->
+     typed_get k (arr b) i = Panic /\ get_bytes (arr b) i (k_bytes k) = Panic).
+
+Definition sparse_map_generic (e : encoder) (b : base) (idx : list N) (vs : list value) : Prop :=
+  span (arr b) = 64 * span_words idx /\
+  (forall j, (j < length idx)%nat ->
+     nth j idx 0 < span (arr b) /\
+     base_get b (nth j idx 0) = Val (Some (nth j vs [])) /\
+     get_bytes (arr b) (nth j idx 0) (enc_size e) = Val (Some (encode_fields e (nth j vs [])))) /\
+  (forall i, i < span (arr b) -> ~ In i idx ->
+     base_get b i = Val None /\ get_bytes (arr b) i (enc_size e) = Val None) /\
+  (forall i, span (arr b) <= i ->
+     base_get b i = Panic /\ get_bytes (arr b) i (enc_size e) = Panic).
